@@ -86,10 +86,10 @@ macro_rules! c02_local_header {
 /// symbolic 1-byte ASCII name: signature, flag bit 11 <=> non-ASCII name, bit 0 <=> encrypted,
 /// lengths, name bytes; with large_file the sentinels and the 20-byte ZIP64 record in APPNOTE
 /// order.
-// @h prop=C02,C08,C19 tier=quick t=600 mem=8 name=c02_local_header_name1
+// @h prop=C02,C08,C19 tier=quick t=300 mem=4 name=c02_local_header_name1
 c02_local_header!(c02_local_header_name1, ascii1(), 1);
 /// C02 local header, 2-byte names (two ASCII bytes or one two-byte UTF-8 scalar: UTF-8 flag).
-// @h prop=C02,C08,C19 tier=quick t=600 mem=8 name=c02_local_header_name2
+// @h prop=C02,C08,C19 tier=quick t=300 mem=4 name=c02_local_header_name2
 c02_local_header!(c02_local_header_name2, name2(), 2);
 
 /// Reference decoding of the central ZIP64 extended-information record the way APPNOTE 4.5.3
@@ -199,11 +199,11 @@ macro_rules! c02_central_header {
 /// 32-bit field is 0xFFFFFFFF, APPNOTE order) recovers uncompressed size, compressed size and
 /// local-header offset EXACTLY for all 2^192 combinations, including 0xFFFFFFFE/FF/1_0000_0000;
 /// version needed >= 45 with ZIP64 values. 1-byte name, no caller extra data.
-// @h prop=C02,C08,C19 tier=quick t=900 mem=10 name=c02_central_header_n1_x0
+// @h prop=C02,C08,C19 tier=quick t=300 mem=4 name=c02_central_header_n1_x0
 c02_central_header!(c02_central_header_n1_x0, ascii1(), 1, 0);
 /// C02/C08/C17 central header with a 2-byte name and 4 bytes of caller extra data (stored
 /// verbatim after the ZIP64 record).
-// @h prop=C02,C08,C17,C19 tier=quick t=900 mem=10 name=c02_central_header_n2_x4
+// @h prop=C02,C08,C17,C19 tier=quick t=300 mem=4 name=c02_central_header_n2_x4
 c02_central_header!(c02_central_header_n2_x4, name2(), 2, 4);
 
 // =============================================================================================
@@ -360,10 +360,10 @@ macro_rules! c01_write_file {
 /// reference: local header == central header (name, flags, method, time, CRC = bitwise
 /// reference CRC of the payload, sizes), data in place, offsets/sizes/counts exact, ZIP64 local
 /// record when large_file, mode = S_IFREG | perm&0o777, comment stored. 1-byte comment.
-// @h prop=C01,C02,C09,C18 tier=quick t=1200 mem=8 name=c01_write_file_d2_c1
+// @h prop=C01,C02,C09,C18 tier=quick t=300 mem=4 name=c01_write_file_d2_c1
 c01_write_file!(c01_write_file_d2_c1, 2, 1, 1, false, 10);
 /// C01/C02/C08 as above with large_file(true): 20-byte local ZIP64 record, back-patched sizes.
-// @h prop=C01,C02,C08,C18 tier=quick t=1200 mem=8 name=c01_write_file_d2_c1_large
+// @h prop=C01,C02,C08,C18 tier=quick t=360 mem=4 name=c01_write_file_d2_c1_large
 c01_write_file!(c01_write_file_d2_c1_large, 2, 1, 1, true, 10);
 
 // =============================================================================================
@@ -558,17 +558,16 @@ const APPNOTE_IDS: [u16; 49] = [
     0xa220, 0xfd4a, 0x9901, 0x9902,
 ];
 fn ref_id_reserved(id: u16) -> bool {
-    if id <= 31 {
-        return true;
-    }
-    let mut i = 0;
-    while i < 49 {
-        if APPNOTE_IDS[i] == id {
-            return true;
-        }
-        i += 1;
-    }
-    false
+    // loop-free membership test in APPNOTE_IDS (keeps the harness's own unwinding needs small);
+    // c17_ids_table_consistent shows it equals a linear search of the table above
+    id <= 31
+        || matches!(
+            id,
+            0x0001 | 0x0007 | 0x0008 | 0x0009 | 0x000a | 0x000c | 0x000d | 0x000e | 0x000f | 0x0014 | 0x0015 | 0x0016 | 0x0017
+                | 0x0018 | 0x0019 | 0x0020 | 0x0021 | 0x0022 | 0x0023 | 0x0065 | 0x0066 | 0x4690 | 0x07c8 | 0x2605 | 0x2705
+                | 0x2805 | 0x334d | 0x4341 | 0x4453 | 0x4704 | 0x470f | 0x4b46 | 0x4c41 | 0x4d49 | 0x4f4c | 0x5356 | 0x5455
+                | 0x554e | 0x5855 | 0x6375 | 0x6542 | 0x7075 | 0x756e | 0x7855 | 0xa11e | 0xa220 | 0xfd4a | 0x9901 | 0x9902
+        )
 }
 /// reference validity of a caller-supplied extra-data block: a sequence of (id, size, body)
 /// records, none truncated, no reserved id
@@ -592,9 +591,9 @@ fn ref_extra_valid(x: &[u8]) -> bool {
 }
 
 macro_rules! c17_validate {
-    ($name:ident, $n:expr) => {
+    ($name:ident, $n:expr, $unwind:expr) => {
         #[kani::proof]
-        #[kani::unwind(51)]
+        #[kani::unwind($unwind)]
         #[kani::stub(alloc::fmt::format, crate::verif_kit::stub_format)]
         fn $name() {
             const N: usize = $n;
@@ -603,18 +602,21 @@ macro_rules! c17_validate {
             f.large_file = kani::any();
             let r = validate_extra_data(&f);
             let want = ref_extra_valid(&x);
-            match r {
+            let ok = match r {
                 Ok(()) => {
                     assert!(want, "reserved/truncated extra data accepted");
-                    kani::cover!(true);
+                    true
                 }
                 Err(e) => {
                     core::mem::forget(e);
                     assert!(!want, "well-formed unreserved extra data rejected");
-                    kani::cover!(N >= 4 && le16(&x, 0) == 0x0001);
-                    kani::cover!(N >= 4 && le16(&x, 0) > 31 && le16(&x, 0) != 0x0001);
+                    false
                 }
-            }
+            };
+            // reachability witnesses (N < 4: every block is an incomplete header)
+            kani::cover!(N < 4 || ok);
+            kani::cover!(!ok && (N < 4 || le16(&x, 0) == 0x0001));
+            kani::cover!(!ok && (N < 4 || (le16(&x, 0) > 31 && le16(&x, 0) != 0x0001)));
             core::mem::forget(f);
         }
     };
@@ -622,14 +624,14 @@ macro_rules! c17_validate {
 /// C17 extra-data validation over EVERY 5-byte block: accepted iff it is a sequence of complete
 /// records none of which uses the ZIP64 id, an id <= 31 or an APPNOTE-registered id (list typed
 /// from the specification).
-// @h prop=C17,C12 tier=quick t=900 mem=10 name=c17_validate_extra_5
-c17_validate!(c17_validate_extra_5, 5);
+// @h prop=C17,C12 tier=quick t=300 mem=4 name=c17_validate_extra_5 uws="write19validate_extra_data\.0$:4;Iterator3any.*validate_extra_data:51"
+c17_validate!(c17_validate_extra_5, 5, 8);
 /// C17 extra-data validation over every 9-byte block (two records / truncated second header).
-// @h prop=C17,C12 tier=quick t=1200 mem=12 name=c17_validate_extra_9
-c17_validate!(c17_validate_extra_9, 9);
+// @h prop=C17,C12 tier=quick t=360 mem=5 name=c17_validate_extra_9 uws="write19validate_extra_data\.0$:5;Iterator3any.*validate_extra_data:51"
+c17_validate!(c17_validate_extra_9, 9, 12);
 /// C17 extra-data validation over every 3-byte block (always an incomplete header).
-// @h prop=C17 tier=quick t=600 mem=8 name=c17_validate_extra_3
-c17_validate!(c17_validate_extra_3, 3);
+// @h prop=C17 tier=quick t=300 mem=4 name=c17_validate_extra_3
+c17_validate!(c17_validate_extra_3, 3, 6);
 
 // =============================================================================================
 // API-level call sequences (C01, C12, C17): concrete call order, symbolic parameters
@@ -656,7 +658,7 @@ fn sym_opts() -> (FileOptions, u16, u16, u32) {
 /// end_extra_data without extra data -> Err; then a file with 1 byte; finish. The archive holds
 /// exactly the directory ("d/" - slash appended, S_IFDIR|perm, empty) and the file with exactly
 /// the byte whose write succeeded.
-// @h prop=C12,C01 tier=quick t=1800 mem=10
+// @h prop=C12,C01 tier=quick t=300 mem=4
 api_harness!(c12_misuse_then_dir_and_file, 10, {
     let mut sink = Sink::<192>::new();
     let mut w = ZipWriter::new(sink.handle());
@@ -690,7 +692,7 @@ api_harness!(c12_misuse_then_dir_and_file, 10, {
 
 /// C12: calls after finish: write, start_file, add_directory, end_extra_data and a second
 /// finish all return errors (no panic) and the finished archive (one empty file) is unchanged.
-// @h prop=C12 tier=quick t=1800 mem=10
+// @h prop=C12 tier=quick t=300 mem=4
 api_harness!(c12_calls_after_finish, 10, {
     let mut sink = Sink::<128>::new();
     let mut w = ZipWriter::new(sink.handle());
@@ -714,7 +716,7 @@ api_harness!(c12_calls_after_finish, 10, {
 
 /// C12: a new entry implicitly closes the previous one: start_file(a)+1 byte, start_file(b)+2
 /// bytes (two writes), finish: both entries hold exactly their bytes, CRCs and sizes patched.
-// @h prop=C12,C01,C09 tier=quick t=1800 mem=10
+// @h prop=C12,C01,C09 tier=quick t=300 mem=4
 api_harness!(c12_implicit_close_two_files, 10, {
     let mut sink = Sink::<192>::new();
     let mut w = ZipWriter::new(sink.handle());
@@ -738,7 +740,7 @@ api_harness!(c12_implicit_close_two_files, 10, {
 
 /// C01: symlink entry: name, target stored as content, S_IFLNK|perm; write after it -> Err;
 /// archive comment kept.
-// @h prop=C01,C12 tier=quick t=1800 mem=10
+// @h prop=C01,C12 tier=quick t=300 mem=4
 api_harness!(c01_symlink_and_comment, 10, {
     let mut sink = Sink::<128>::new();
     let mut w = ZipWriter::new(sink.handle());
@@ -759,7 +761,7 @@ api_harness!(c01_symlink_and_comment, 10, {
 /// C12: an unsupported compression method is refused by start_file with an error (no panic);
 /// whatever the writer's state afterwards, a later finish() either fails or yields an archive
 /// that does not contain the refused entry.
-// @h prop=C12 tier=quick t=1800 mem=10
+// @h prop=C12 tier=dev t=1800 mem=10
 api_harness!(c12_unsupported_method_refused, 10, {
     let mut sink = Sink::<128>::new();
     let mut w = ZipWriter::new(sink.handle());
@@ -789,8 +791,8 @@ api_harness!(c12_unsupported_method_refused, 10, {
 /// one record (symbolic unreserved id, 1-byte body) written through Write, end_extra_data
 /// (returns the final data start), 1 content byte, finish: the record is stored verbatim in BOTH
 /// the local header and the central record, lengths patched, data starts where reported.
-// @h prop=C17,C12 tier=quick t=1800 mem=10
-api_harness!(c17_extra_shared, 51, {
+// @h prop=C17,C12 tier=quick t=840 mem=7 uws="write19validate_extra_data\.0$:4;Iterator3any.*validate_extra_data:51"
+api_harness!(c17_extra_shared, 10, {
     let mut sink = Sink::<160>::new();
     let mut w = ZipWriter::new(sink.handle());
     let (o1, date1, time1, perm1) = sym_opts();
@@ -815,8 +817,8 @@ api_harness!(c17_extra_shared, 51, {
 /// C17: local-only + central-only extra data: local record before
 /// end_local_start_central_extra_data appears only in the local header, the central record
 /// only in the central directory.
-// @h prop=C17,C12 tier=quick t=1800 mem=10
-api_harness!(c17_extra_local_and_central, 51, {
+// @h prop=C17,C12 tier=dev t=1800 mem=20 uws="write19validate_extra_data\.0$:4;Iterator3any.*validate_extra_data:51"
+api_harness!(c17_extra_local_and_central, 10, {
     let mut sink = Sink::<160>::new();
     let mut w = ZipWriter::new(sink.handle());
     let (o1, date1, time1, perm1) = sym_opts();
@@ -845,8 +847,8 @@ api_harness!(c17_extra_local_and_central, 51, {
 
 /// C17/C12: reserved or malformed extra data is refused by end_extra_data with an error: one
 /// record with a symbolic id (reserved) or a truncated body.
-// @h prop=C17,C12 tier=quick t=1800 mem=10
-api_harness!(c17_extra_reserved_refused, 51, {
+// @h prop=C17,C12 tier=quick t=360 mem=4 uws="write19validate_extra_data\.0$:4;Iterator3any.*validate_extra_data:51"
+api_harness!(c17_extra_reserved_refused, 10, {
     let mut sink = Sink::<160>::new();
     let mut w = ZipWriter::new(sink.handle());
     let (o1, _, _, _) = sym_opts();
@@ -865,8 +867,8 @@ api_harness!(c17_extra_reserved_refused, 51, {
 
 /// C17/C12/C02: shared extra data on a large_file(true) entry: the local extra-field length
 /// must cover the 20-byte ZIP64 block plus the caller's record, data starts where reported.
-// @h prop=C17,C12,C02 tier=quick t=1500 mem=8
-api_harness!(c17_extra_shared_large, 51, {
+// @h prop=C17,C12,C02 tier=quick t=840 mem=7 uws="write19validate_extra_data\.0$:4;Iterator3any.*validate_extra_data:51"
+api_harness!(c17_extra_shared_large, 10, {
     let mut sink = Sink::<192>::new();
     let mut w = ZipWriter::new(sink.handle());
     let (o1, date1, time1, perm1) = sym_opts();
@@ -891,8 +893,8 @@ api_harness!(c17_extra_shared_large, 51, {
 
 /// C17/C12: central-only extra data is validated too: after end_local_start_central_extra_data a
 /// record with a reserved id or a truncated body makes end_extra_data fail.
-// @h prop=C17,C12 tier=quick t=1500 mem=8
-api_harness!(c17_central_only_reserved_refused, 51, {
+// @h prop=C17,C12 tier=quick t=360 mem=4 uws="write19validate_extra_data\.0$:4;Iterator3any.*validate_extra_data:51"
+api_harness!(c17_central_only_reserved_refused, 10, {
     let mut sink = Sink::<160>::new();
     let mut w = ZipWriter::new(sink.handle());
     let (o1, _, _, _) = sym_opts();
@@ -913,7 +915,7 @@ api_harness!(c17_central_only_reserved_refused, 51, {
 /// C09 writer half / C01: the sink accepts the entry DATA in arbitrary short writes (1..=4 bytes per
 /// call, symbolic schedule); the finished archive is byte-for-byte the one the reference layout
 /// prescribes (CRC, sizes, data), i.e. identical to the archive produced with full writes.
-// @h prop=C09,C01 tier=quick t=1500 mem=8
+// @h prop=C09,C01 tier=dev t=1500 mem=8
 api_harness!(c09_writer_short_data_writes, 10, {
     let mut sink = Sink::<128>::new();
     let mut w = ZipWriter::new(sink.handle());
@@ -936,7 +938,7 @@ api_harness!(c09_writer_short_data_writes, 10, {
 /// ZIP64 end record + locator precede the classic record; the ZIP64 record carries the exact
 /// offset, the locator points at the ZIP64 record, the classic record holds the sentinel; below
 /// the limit the classic record alone holds the exact offset.
-// @h prop=C08,C02 tier=quick t=900 mem=10
+// @h prop=C08,C02 tier=quick t=300 mem=4
 api_harness!(c08_finalize_any_offset_empty, 10, {
     let base: u64 = kani::any();
     kani::assume(base < (1u64 << 62));
@@ -985,7 +987,7 @@ api_harness!(c08_finalize_any_offset_empty, 10, {
 /// poisoned and no later finish() succeeds; when accepted and finished, the recorded
 /// uncompressed size is exactly n+1 (from the ZIP64 record when it does not fit or the entry is
 /// large), never a wrapped value.
-// @h prop=C08,C12 tier=quick t=1500 mem=8
+// @h prop=C08,C12 tier=dev t=1500 mem=8
 api_harness!(c08_write_guard_4gib, 10, {
     let mut sink = Sink::<160>::new();
     let mut w = ZipWriter::new(sink.handle());
@@ -1038,7 +1040,7 @@ api_harness!(c08_write_guard_4gib, 10, {
 /// data at a multiple of align (align >= 2), the padding travels in a well-formed local extra
 /// record (id 0x617a) that is absent from the central directory, the returned pad equals the
 /// local extra length, and the content byte is where the local header says.
-// @h prop=C17 tier=quick t=1800 mem=10
+// @h prop=C17 tier=dev t=1800 mem=10
 api_harness!(c17_aligned_small_any_offset, 12, {
     let base: u64 = kani::any();
     kani::assume(base < (1u64 << 32) - 4096);
@@ -1086,6 +1088,12 @@ api_harness!(c17_aligned_small_any_offset, 12, {
     kani::cover!(x == 11);
 });
 
+/// A concrete 20-byte unknown extra record (id 0xcafe) closing the last central header: the 20
+/// bytes in front of the end record are then concrete, so the reader's probe for a ZIP64 locator
+/// there is decided during symbolic execution (otherwise CBMC explores the ZIP64 search with
+/// symbolic seek positions: > 8 GB). ZIP64 locator/end-record handling is covered by c08_*.
+const TAILX: [u8; 20] = [0xfe, 0xca, 16, 0, 1, 2, 3, 4, 5, 6, 7, 8, 9, 10, 11, 12, 13, 14, 15, 16];
+
 /// C13 append: a one-entry archive from the independent builder (all metadata symbolic: method
 /// any number, times, CRC, sizes as declared, attributes, made-by; 1-byte ASCII name, 2-byte
 /// payload, 1-byte archive comment) is opened with new_append, one new stored entry is added
@@ -1093,8 +1101,8 @@ api_harness!(c17_aligned_small_any_offset, 12, {
 /// follows them, the central directory lists the old entry first with the same name, method,
 /// time, CRC, sizes, attributes (same Unix mode) and offset, then the new one; counts, sizes
 /// and offsets of the end record are exact and the archive comment is kept.
-// @h prop=C13,C02 tier=quick t=1800 mem=10
-api_harness!(c13_append_one_entry, 10, {
+// @h prop=C13,C02 tier=dev t=1800 mem=10 uws="fn:^std::ptr::drop_glue::<std::io::Error>$:2"
+api_harness!(c13_append_one_entry, 36, {
     const N: usize = 224;
     let mut b = [0u8; N];
     let mut v = EntryVals::any();
@@ -1110,10 +1118,10 @@ api_harness!(c13_append_one_entry, 10, {
     b[p] = payload[0];
     b[p + 1] = payload[1];
     let cd0 = p + 2;
-    let e0 = put_central(&mut b, cd0, &v, &name, &[], &[]);
+    let e0 = put_central(&mut b, cd0, &v, &name, &TAILX, &[]);
     let end0 = put_eocd(&mut b, e0, 0, 0, 1, 1, (e0 - cd0) as u32, cd0 as u32, &cm);
     let orig = b;
-    let mut sink = Sink::<N>::from_bytes(&b[..end0]);
+    let mut sink = Sink::<N>::from_array(b, end0);
     let mut w = match ZipWriter::new_append(sink.handle()) {
         Ok(w) => w,
         Err(e) => {
@@ -1166,7 +1174,13 @@ api_harness!(c13_append_one_entry, 10, {
             assert_eq!(usz, v.usize_ as u64);
             assert_eq!(csz, 2);
             assert_eq!(off, 0);
-            assert_eq!(z, elen0);
+            // the old entry's own extra data follows the (possibly added) ZIP64 record verbatim
+            assert_eq!(z + 20, elen0);
+            let mut i = 0;
+            while i < 20 {
+                assert_eq!(nb[c0 + 47 + z + i], TAILX[i]);
+                i += 1;
+            }
         }
         None => assert!(false, "re-emitted central record inconsistent"),
     }
@@ -1208,15 +1222,15 @@ api_harness!(c13_append_one_entry, 10, {
     assert_eq!(le16(nb, eo + 20), 1);
     assert_eq!(nb[eo + 22], cm[0]);
     assert_eq!(sink.end, eo + 23);
-    kani::cover!(elen0 == 12);
-    kani::cover!(elen0 == 0 && dd);
+    kani::cover!(elen0 == 32);
+    kani::cover!(elen0 == 20 && dd);
 });
 
 /// C13 appending nothing leaves an equivalent archive: new_append followed directly by finish
 /// rewrites the central directory with the same entry values at the same place and keeps the
 /// comment; the old local header and data are untouched.
-// @h prop=C13 tier=quick t=1500 mem=8
-api_harness!(c13_append_nothing, 10, {
+// @h prop=C13 tier=dev t=1500 mem=8 uws="fn:^std::ptr::drop_glue::<std::io::Error>$:2"
+api_harness!(c13_append_nothing, 36, {
     const N: usize = 160;
     let mut b = [0u8; N];
     let mut v = EntryVals::any();
@@ -1232,10 +1246,10 @@ api_harness!(c13_append_nothing, 10, {
     b[p] = payload[0];
     b[p + 1] = payload[1];
     let cd0 = p + 2;
-    let e0 = put_central(&mut b, cd0, &v, &name, &[], &[]);
+    let e0 = put_central(&mut b, cd0, &v, &name, &TAILX, &[]);
     let end0 = put_eocd(&mut b, e0, 0, 0, 1, 1, (e0 - cd0) as u32, cd0 as u32, &cm);
     let orig = b;
-    let mut sink = Sink::<N>::from_bytes(&b[..end0]);
+    let mut sink = Sink::<N>::from_array(b, end0);
     let mut w = match ZipWriter::new_append(sink.handle()) {
         Ok(w) => w,
         Err(e) => {
@@ -1261,7 +1275,12 @@ api_harness!(c13_append_nothing, 10, {
     assert_eq!(le32(nb, cd0 + 20), 2);
     assert_eq!(le32(nb, cd0 + 24), v.usize_);
     assert_eq!(le16(nb, cd0 + 28), 1);
-    assert_eq!(le16(nb, cd0 + 30), 0);
+    assert_eq!(le16(nb, cd0 + 30), 20);
+    let mut i = 0;
+    while i < 20 {
+        assert_eq!(nb[cd0 + 47 + i], TAILX[i]);
+        i += 1;
+    }
     assert_eq!(le32(nb, cd0 + 38), v.eattr);
     assert_eq!(le32(nb, cd0 + 42), 0);
     assert_eq!(nb[cd0 + 46], name[0]);
@@ -1281,7 +1300,7 @@ api_harness!(c13_append_nothing, 10, {
 /// raw_copy_file_rename: its compressed bytes, method, CRC, sizes and time arrive unchanged,
 /// permission bits equal the source's (default mode when the source has none), and the
 /// entries written before and after it hold exactly their own bytes with their own CRCs.
-// @h prop=C14,C12,C01 tier=quick t=2400 mem=10
+// @h prop=C14,C12,C01 tier=dev t=2400 mem=10
 #[kani::proof]
 #[kani::unwind(10)]
 #[kani::stub(time::OffsetDateTime::now_utc, crate::verif_kit::stub_now_utc)]
@@ -1363,7 +1382,7 @@ fn c14_raw_copy_between_neighbours() {
 /// C11 writer: the sink fails at ONE arbitrary I/O call (symbolic index, any of write / seek /
 /// flush) during start_file(a), write, start_file(b), write, finish. No call panics (then or
 /// later), and if no call reported an error the produced archive is exactly the failure-free one.
-// @h prop=C11,C12 tier=quick t=2400 mem=10
+// @h prop=C11,C12 tier=dev t=2400 mem=10
 api_harness!(c11_writer_fault_any_point, 10, {
     let k: u32 = kani::any();
     let kinds: u8 = kani::any();
